@@ -315,7 +315,7 @@ def lenbucket(n):
 
 MEM_ROUTES = ['bin', 'auto_bin', 'hex_or_bin', 'slice_of_longer', 'bytes_offset', 'concat', 'bitarray', 'bitarray_kw', 'iterable', 'from_other_class',
               'fromstring', 'join', 'copy', 'bytesio_offset', 'pack_bits', 'cache_hit', 'bitarray_little', 'bitarray_little_kw', 'frozenbitarray',
-              'memoryview_wide', 'memoryview_wide_kw', 'bitarray_buffer']
+              'memoryview_wide', 'memoryview_wide_kw', 'bitarray_buffer', 'iter_truthy', 'memoryview_strided']
 
 
 POSITIONAL_ROUTES = {'slice_of_longer'}
@@ -396,6 +396,17 @@ def _build_route(clsname, bits, route, salt=0):
         if route == 'memoryview_wide' and len(padded) == n and n:
             return c(mv)
         return c(bytes=mv, offset=off, length=n)
+    if route == 'iter_truthy':
+        # a one-shot iterator whose items are truthy / falsy objects other than 0, 1, True, False
+        if n > 4000:
+            return c(bin=bits)
+        return c(make_promotable(['iter_truthy', 'map_truthy', 'list_truthy'][salt % 3], bits))
+    if route == 'memoryview_strided':
+        # a non-contiguous view: every second byte of a buffer
+        if n % 8 or n == 0:
+            return c(bytes=memoryview(to_bytes(bits + '0' * (-n % 8))), length=n)
+        raw = bytes(b for byte in to_bytes(bits) for b in (byte, 0xa5))
+        return c(memoryview(raw)[::2])
     if route == 'iterable':
         if n > 4000:
             return c(bin=bits)
